@@ -350,7 +350,13 @@ func (v pv) canonical() bool {
 	return true
 }
 
-func fromData(v data.Value) pv {
+func fromData(v data.Value) pv { return fromDataX(v, false) }
+
+// fromDataK: like fromData, but an ArrayValue with named slots stays one (kind K: its keys are
+// the names, positions for unnamed slots), instead of being shown as a keyed array (kind O).
+func fromDataK(v data.Value) pv { return fromDataX(v, true) }
+
+func fromDataX(v data.Value, keepK bool) pv {
 	switch x := v.(type) {
 	case nil:
 		return pv{K: '?'}
@@ -377,12 +383,15 @@ func fromData(v data.Value) pv {
 		out := pv{K: 'A', Items: []pv{}}
 		if named { // a keyed ArrayValue (json_decode assoc): show it as keyed
 			out.K = 'O'
+			if keepK {
+				out.K = 'K'
+			}
 		}
 		for _, z := range x.List {
 			if z == nil {
 				out.Items = append(out.Items, pv{K: 'N'})
 			} else {
-				out.Items = append(out.Items, fromData(z.Value))
+				out.Items = append(out.Items, fromDataX(z.Value, keepK))
 			}
 			if named {
 				n := ""
@@ -397,7 +406,7 @@ func fromData(v data.Value) pv {
 		out := pv{K: 'O', Items: []pv{}}
 		x.RangeProperties(func(k string, val data.Value) bool {
 			out.Keys = append(out.Keys, k)
-			out.Items = append(out.Items, fromData(val))
+			out.Items = append(out.Items, fromDataX(val, keepK))
 			return true
 		})
 		return out
@@ -558,6 +567,23 @@ func refValue(s string, depth int) (string, string, bool) {
 
 var intPool = []int64{0, 1, -1, 2, -2, 9, 10, 99, 100, 255, 256, 65535, 1 << 31, -(1 << 31), 1<<53 - 1, 1 << 53, 1<<53 + 1, -(1 << 53), -(1<<53 + 1), math.MaxInt64, math.MinInt64, math.MaxInt64 - 1, math.MinInt64 + 1}
 
+var floatPool = []float64{0, math.Copysign(0, -1), 1, -1, 1.5, -2.5, 0.1, 0.2, 0.1 + 0.2, 1e-7, 1e21, 1e25, 1e15, 1e16, 1e17, 1e18, 1e-3, 1e-4, 1e-5, 123456.789,
+	1 << 53, 1<<53 + 2, -(1 << 53), 9223372036854775808.0, math.MaxFloat64, -math.MaxFloat64, math.SmallestNonzeroFloat64, 2.2250738585072014e-308, 100000, 0.5, 3.141592653589793,
+	math.Inf(1), math.Inf(-1), math.NaN()}
+
+func (r *runner) genFloat() float64 {
+	rd := r.c.Rand
+	switch rd.Intn(4) {
+	case 0:
+		return floatPool[rd.Intn(len(floatPool))]
+	case 1: // any bit pattern
+		return math.Float64frombits(rd.U64())
+	case 2: // short decimals
+		return float64(int64(rd.Intn(200001))-100000) / []float64{1, 10, 100, 1000, 1e6}[rd.Intn(5)]
+	}
+	return math.Ldexp(float64(rd.U64()>>11), rd.Intn(200)-100)
+}
+
 var strPool = []string{"", "a", "ab", "0", "5", "-5", "05", "k", "key", "a\"b", "\";}", "s:1:\"x\";", "a;b:c{d}e", "\\", "\\\"", "\x00", "\x00\xff", "line\nbreak", " lead", "trail ", "\t", "日本", "é", "😀", strings.Repeat("x", 300), "N;", "}", "{", "i:1;"}
 
 func (r *runner) genStr() string {
@@ -578,12 +604,13 @@ func (r *runner) genStr() string {
 	return string(b)
 }
 
-// genPV: float-free value, nesting ≤ depth; objects are non-empty with distinct keys.
+// genPV: value with nesting ≤ depth; objects are non-empty with distinct keys, slot keys of a
+// keyed ArrayValue are distinct (a PHP array has one entry per key).
 func (r *runner) genPV(depth int) pv {
 	rd := r.c.Rand
-	k := rd.Intn(10)
-	if depth == 0 && k >= 6 {
-		k = rd.Intn(6)
+	k := rd.Intn(12)
+	if depth == 0 && k >= 7 {
+		k = rd.Intn(7)
 	}
 	switch {
 	case k == 0:
@@ -597,13 +624,17 @@ func (r *runner) genPV(depth int) pv {
 		return pv{K: 'I', I: int64(rd.U64())}
 	case k <= 5:
 		return pv{K: 'S', S: r.genStr()}
-	case k <= 7:
+	case k == 6:
+		return pv{K: 'D', F: r.genFloat()}
+	case k <= 8:
 		n := rd.Intn(4)
 		v := pv{K: 'A', Items: []pv{}}
 		for i := 0; i < n; i++ {
 			v.Items = append(v.Items, r.genPV(depth-1))
 		}
 		return v
+	case k == 9:
+		return r.genKeyed(depth)
 	default:
 		n := 1 + rd.Intn(3)
 		v := pv{K: 'O', Items: []pv{}}
@@ -624,8 +655,46 @@ func (r *runner) genPV(depth int) pv {
 	}
 }
 
+// genKeyed: a data.ArrayValue some of whose slots carry names ($a['k'] = v, sparse integer
+// keys, what json_decode(…, true) returns for an object); the slot keys are distinct.
+func (r *runner) genKeyed(depth int) pv {
+	rd := r.c.Rand
+	n := 1 + rd.Intn(4)
+	v := pv{K: 'K', Items: []pv{}}
+	seen := map[string]bool{}
+	for i := 0; i < n; i++ {
+		name := ""
+		switch rd.Intn(5) {
+		case 0: // positional
+		case 1: // integer-like name (sparse key, or exactly the position)
+			name = strconv.Itoa(rd.Intn(8))
+			if rd.Chance(30) {
+				name = strconv.Itoa(len(v.Items))
+			}
+			if rd.Chance(10) {
+				name = strconv.FormatInt(intPool[rd.Intn(len(intPool))], 10)
+			}
+		default:
+			name = r.genStr()
+		}
+		key := name
+		if name == "" {
+			key = strconv.Itoa(len(v.Items))
+		}
+		if seen[key] {
+			continue
+		}
+		seen[key] = true
+		v.Keys = append(v.Keys, name)
+		v.Items = append(v.Items, r.genPV(depth-1))
+	}
+	// a later positional slot must not collide with an earlier integer-like name either: checked above
+	// through `seen`; an earlier name equal to a later position is caught the same way.
+	return v
+}
+
 func nontrivPV(v pv) bool {
-	return v.K == 'A' && len(v.Items) > 0 || v.K == 'O' || v.K == 'S' && len(v.S) > 1
+	return v.K == 'A' && len(v.Items) > 0 || v.K == 'O' || v.K == 'K' || v.K == 'D' || v.K == 'S' && len(v.S) > 1
 }
 
 // ---------------------------------------------------------------- checks
@@ -634,26 +703,29 @@ func nontrivPV(v pv) bool {
 func (r *runner) oneSer(v pv) {
 	c := r.c
 	vs := v.String()
+	ms := v.modelString()
 	cas := Case{Kind: "ser", Val: vs, Sub: "value"}
 	c.Eval("ser:"+vs, nontrivPV(v))
 	c.Hit("ser:kind=" + string(v.K))
 	res := r.e.call("serialize", v.toData())
 	if res.Kind != "str" {
 		r.viol("serialize:"+res.Kind, fmt.Sprintf("serialize(%s) → %s", clip(vs), res), cas)
-		r.ask("ser\t"+vs, "none", cas, "serialize vs Model.Ser.ser")
+		r.ask("ser\t"+ms, "none", cas, "serialize vs Model.Ser.ser")
 		return
 	}
 	out := res.S
-	r.ask("ser\t"+vs, "some:"+hexs(out), cas, "serialize vs Model.Ser.ser")
+	r.ask("ser\t"+ms, "some:"+hexs(out), cas, "serialize vs Model.Ser.ser")
 	if ref, ok := refUnserialize(out); !ok || ref != v.norm() {
 		r.viol("serialize:reference", fmt.Sprintf("serialize(%s) = %q is not read back as the same value by the format's reader (%s)", clip(vs), clip(out), clip(ref)), cas)
 	}
 	back := r.e.call("unserialize", str(out))
-	got := "?" + back.Kind
+	got, gotNorm := "?"+back.Kind, "?"
 	if back.V != nil {
 		got = fromData(back.V).String()
+		gotNorm = fromData(back.V).norm()
 	}
-	if got != vs {
+	// the same PHP value comes back; for the representations unserialize itself produces, the very same Go value
+	if gotNorm != v.norm() || v.canonical() && got != vs {
 		r.viol("serialize:roundtrip", fmt.Sprintf("unserialize(serialize(%s)) = %s", clip(vs), clip(got)), cas)
 	}
 	r.oneUnser(out, "valid")
@@ -723,7 +795,7 @@ func (r *runner) oneUnser(s string, how string) {
 		c.Hit("unser:legacy-skipped")
 		return
 	}
-	r.ask("unser\t"+hexs(t), impl, cas, "unserialize vs Model.Ser.unserializeT")
+	r.askCanon("unser\t"+hexs(t), impl, cas, "unserialize vs Model.Ser.unserializeT")
 }
 
 func fromDataNorm(res callRes) string {
@@ -752,13 +824,13 @@ func (r *runner) mutateSer(s string) (string, string) {
 	case 2: // structural character swap
 		if len(b) > 0 {
 			i := rd.Intn(len(b))
-			const u = "\";:{}NbisaO+-0 "
+			const u = "\";:{}NbisadO+-0 .eE"
 			b[i] = u[rd.Intn(len(u))]
 			return string(b), "struct"
 		}
 	case 3: // insert
 		i := rd.Intn(len(b) + 1)
-		ins := []string{"\"", ";", "}", "{", "N;", "i:1;", " ", "\n", "s:1:\"x\";", "a:0:{}", "0", "-", "+"}[rd.Intn(13)]
+		ins := []string{"\"", ";", "}", "{", "N;", "i:1;", " ", "\n", "s:1:\"x\";", "a:0:{}", "0", "-", "+", "d:0.5;", ".", "e", "E5"}[rd.Intn(17)]
 		return string(b[:i]) + ins + string(b[i:]), "insert"
 	case 4: // delete
 		if len(b) > 0 {
@@ -782,7 +854,7 @@ func (r *runner) mutateSer(s string) (string, string) {
 	}
 	// replace a key by a non-scalar
 	if i := strings.Index(s, "{i:0;"); i >= 0 {
-		return s[:i+1] + []string{"a:0:{}", "N;", "b:1;", "a:1:{i:0;N;}", "a:1:{s:1:\"k\";i:2;}"}[rd.Intn(5)] + s[i+5:], "oddkey"
+		return s[:i+1] + []string{"a:0:{}", "N;", "b:1;", "a:1:{i:0;N;}", "a:1:{s:1:\"k\";i:2;}", "d:0;", "d:1.5;"}[rd.Intn(7)] + s[i+5:], "oddkey"
 	}
 	return s + "x", "append"
 }
@@ -797,6 +869,27 @@ func (r *runner) serialize() {
 		r.oneSer(pv{K: 'S', S: s})
 		r.oneSer(pv{K: 'O', Items: []pv{{K: 'S', S: s}}, Keys: []string{s}})
 		r.oneSer(pv{K: 'A', Items: []pv{{K: 'S', S: s}, {K: 'S', S: s}}})
+	}
+	for _, f := range floatPool {
+		r.oneSer(pv{K: 'D', F: f})
+		r.oneSer(pv{K: 'A', Items: []pv{{K: 'D', F: f}, {K: 'I', I: 1}}})
+		r.oneSer(pv{K: 'O', Items: []pv{{K: 'D', F: f}}, Keys: []string{"f"}})
+	}
+	// keyed ArrayValues: names, sparse / negative / non-canonical integer-like names, names equal to the position
+	for _, ks := range [][]string{{"x", "y"}, {"", "k"}, {"k", ""}, {"", "", "5"}, {"0", "1"}, {"1", "0"}, {"", "1"}, {"-3", "03", "+3"}, {"-0", "0"},
+		{"9223372036854775807", "9223372036854775808", "-9223372036854775808", "-9223372036854775809"}, {"a\"b", "\";}", "\x00"}, {"3", "", ""}} {
+		v := pv{K: 'K', Items: []pv{}}
+		for i, k := range ks {
+			v.Keys = append(v.Keys, k)
+			v.Items = append(v.Items, pv{K: 'I', I: int64(i + 1)})
+		}
+		r.oneSer(v)
+		r.oneSer(pv{K: 'A', Items: []pv{v, {K: 'O', Items: []pv{v}, Keys: []string{"in"}}}})
+	}
+	for _, s := range strPool {
+		if s != "" && s != "0" { // "0" would be the key of the positional slot before it
+			r.oneSer(pv{K: 'K', Items: []pv{{K: 'I', I: 7}, {K: 'S', S: s}}, Keys: []string{"", s}})
+		}
 	}
 	r.oneSer(pv{K: 'N'})
 	r.oneSer(pv{K: 'T'})
@@ -831,6 +924,24 @@ func (r *runner) serialize() {
 			}
 		}
 		rec("", c.N(2, 3))
+	}
+	// float lexemes: every text of length ≤ 4 (5 in thorough) over the lexeme alphabet, closed by `;`
+	falpha := "01.eE+-NIF;"
+	var frec func(p string, n int)
+	frec = func(p string, n int) {
+		r.oneUnser("d:"+p+";", "floatlex")
+		if n == 0 {
+			return
+		}
+		for i := 0; i < len(falpha); i++ {
+			frec(p+string(falpha[i]), n-1)
+		}
+	}
+	frec("", c.N(4, 5))
+	for _, t := range []string{"d:1.5;", "d:NAN;", "d:INF;", "d:-INF;", "d:+INF;", "d:nan;", "d:inf;", "d:Infinity;", "d:0x10;", "d:1_0;", "d:1e999;", "d:-1e999;", "d:1e-999;", "d:.5;", "d:5.;", "d:.;",
+		"d:1.5", "d:;", "d:", "d", "d:1.5;x", "d:1.5;;", "d: 1.5;", "d:1.5 ;", "d:1,5;", "d:١;", "d:1e+;", "d:1e5.5;", "d:1.2.3;", "a:1:{d:0.5;i:1;}", "a:1:{i:0;d:0.5;}", "a:1:{s:1:\"k\";d:-0;}",
+		"a:1:{b:1;i:1;}", "a:1:{N;i:1;}", "a:1:{a:0:{}i:1;}", "a:2:{i:0;N;a:0:{}i:1;}", "s:5:\"ab\";", "s:1:\"a\";s:1:\"b\";", "s:1:\"ab\";", "s:2:\"a\";", "s:0:\"\"\";", "s:3:\"日\";", "s:1:\"日\";"} {
+		r.oneUnser(t, "pool")
 	}
 	// seeded values and mutants of their serializations
 	n := c.N(3000, 300000)
